@@ -567,6 +567,22 @@ def oracle(ctx, plan, obs):
             if nc is not None and not _close(res.noise_ceiling, nc):
                 ctx.violation('eval_ref.clause3', 'crossval:ceiling',
                               f'crossval: noise ceiling {np.asarray(res.noise_ceiling).tolist()} != cv ceiling of the same sets {list(nc)}')
+        elif sets[2] is None and obs.cv_nc:
+            # no ceiling sets (pattern-only schemes): one leave-one-out ceiling per evaluated fold, on the data at that
+            # fold's test conditions
+            exp = []
+            try:
+                for tr, te, adv in zip(sets[0], sets[1], obs.adv_test):
+                    if _fold_small(tr, te):
+                        continue
+                    exp.append(real['boot_noise_ceiling'](data.subsample_pattern(by=obs.cv_pdesc, value=adv), method=method))
+                exp = np.array(exp).T
+            except Exception:
+                exp = None
+            if exp is not None and not _close(res.noise_ceiling, exp):
+                ctx.violation('eval_ref.clause3', 'crossval:ceiling-per-fold',
+                              f'crossval without ceiling sets: noise ceilings {np.asarray(res.noise_ceiling).tolist()} != per-fold ceilings of the data at the test conditions {np.asarray(exp).tolist()}')
+            ctx.probe('per_fold_ceilings_checked')
         return
 
     # ---------- bootstrap_testset*
